@@ -13,7 +13,7 @@ Record kexlists := {
 
 Definition is_chacha (n : string) : bool := starts_with "chacha20-poly1305" n.
 Definition is_cbc (n : string) : bool :=
-  ends_with "-cbc" n || ends_with "-cbc@openssh.org" n || ends_with "-cbc@ssh.com" n || String.eqb n "rijndael-cbc@lysator.liu.se".
+  ends_with "-cbc" n || ends_with "-cbc@openssh.org" n || ends_with "-cbc@ssh.com" n || String.eqb n "rijndael-cbc@lysator.liu.se" || String.eqb n "des-cbc-ssh1".
 Definition is_etm (n : string) : bool := ends_with "-etm@openssh.com" n.
 
 Definition marker_c : string := "kex-strict-c-v00@openssh.com".
@@ -36,7 +36,9 @@ Fixpoint append_at (i : nat) (s : string) (e : desc) : desc :=
   end.
 Definition db_update (d : db) (c n : string) (f : desc -> desc) : db := update c (fun cat => update n f cat) d.
 (* _add_terrapin_warning; a name the table does not know is left alone (ssh_audit.py after the C04/C09 fix) *)
-Definition add_terrapin (d : db) (c n : string) : db := db_update d c n (append_at 2 terrapin_warning).
+(* the warning is added once per algorithm, however often the peer lists the name *)
+Definition add_warn_once (s : string) (e : desc) : desc := if mem s (warns e) then e else append_at 2 s e.
+Definition add_terrapin (d : db) (c n : string) : db := db_update d c n (add_warn_once terrapin_warning).
 
 Record post := { p_db : db; p_suppress : list string; p_notes : list string }.
 
